@@ -46,7 +46,7 @@ PROBES = ["kind:p2pk", "kind:p2pkh", "kind:multisig", "kind:p2sh-multisig", "kin
           "sighash_direct_256", "codeseparator_script", "noncommitted_change_still_valid", "committed_change_invalidates",
           "revalidate_fresh_equal", "default_flags_verdict_checked", "inputs>=253", "spendable_form_text", "spendable_form_dict", "spendable_form_bin", "wire_big_inputs", "wire_big_outputs",
           "wire_big_out_script", "wire_big_in_script", "wire_big_witness_item", "wire_big_witness_count",
-          "oneshot_create_signed_tx", "oneshot_refused_missing_key", "check_solution_entry", "sighash_script_code>=253", "pass_over_short_signature"]
+          "oneshot_create_signed_tx", "oneshot_refused_missing_key", "check_solution_entry", "sighash_script_code>=253", "pass_over_short_signature", "solver_object_reused", "checker_object_reused"]
 # (wire_tx_* probes are fired by the wire_tx step, which only the S-WIRE planner emits; they are declared there)
 
 _STD = None
@@ -205,6 +205,10 @@ def gen_plan(rng, tier, index, config=None):
             st = {"op": "sign", "copy": cp, "keys": ks, "supply": r.weighted([("dict", 5), ("wifs", 3), ("keychain", 3),
                                                                                 ("keychain_hd", 4 if hd else 0)]),
                   "hash_type": r.pick(hts), "inputs": None if r.chance(0.7) else [j for j in range(nin) if r.chance(0.6)]}
+            if st["supply"] == "dict" and r.chance(0.4):
+                # the cosigner keeps one Solver object for the transaction across its passes (and across whatever edits
+                # happen to the transaction in between)
+                st["solver"] = "reuse"
             if st["supply"] in ("dict", "wifs") and r.chance(0.12):
                 # the cosigner's script table lacks the redeem / witness scripts of some inputs
                 st["withhold_scripts"] = [j for j in range(nin) if r.chance(0.6)] or [0]
@@ -243,7 +247,7 @@ def gen_plan(rng, tier, index, config=None):
             steps.append({"op": "validate", "copy": cp, "how": "each"})
         elif op == "sighash":
             steps.append({"op": "sighash", "copy": cp, "idx": r.below(nin + 1), "script": r.pick(["puzzle", "codesep", "random", "sized"]),
-                          "seed": r.bits(32), "all256": r.chance(0.2), "ht": r.bits(8),
+                          "seed": r.bits(32), "all256": r.chance(0.2), "ht": r.bits(8), "checker": r.pick(["fresh", "reuse"]),
                           "len": r.weighted([(0, 1), (1, 1), (75, 1), (76, 1), (252, 2), (253, 3), (254, 2), (255, 3), (256, 2), (257, 1), (520, 1),
                                              (521, 1), (0xFFFF, 1), (0x10000, 1), (r.between(0, 700), 4)])})
         elif op == "readonly":
@@ -463,6 +467,8 @@ def execute(plan, ctx):
     for k in cfg["keys"]:
         W.keys.append({"d": k["d"], "compressed": k["compressed"], "P": C.mul_g(k["d"]), "path": k.get("path")})
     W.extra = {}
+    W.solvers = {}
+    W.checkers = {}
     W.copies = {}
     W.scripts = []
     W.V = sv.Validator(W.coin)
@@ -711,7 +717,15 @@ def _do_sign(ctx, W, tx, st, secrets, scripts=None):
         if supply == "dict":
             ctx.probe("supply_dict")
             lookup = build_hash160_lookup(secrets, [W.rec])
-            tx.sign(lookup, p2sh_lookup=build_p2sh_lookup(scripts), **kwargs)
+            if st.get("solver") == "reuse":
+                ent = W.solvers.get(id(tx))
+                if ent is None or ent[0] is not tx:
+                    ent = W.solvers[id(tx)] = (tx, tx.Solver(tx))
+                else:
+                    ctx.probe("solver_object_reused")
+                ent[1].sign(lookup, p2sh_lookup=build_p2sh_lookup(scripts), **kwargs)
+            else:
+                tx.sign(lookup, p2sh_lookup=build_p2sh_lookup(scripts), **kwargs)
         elif supply == "wifs":
             ctx.probe("supply_wifs")
             wifs = []
@@ -1420,7 +1434,16 @@ def _op_sighash(ctx, W, st):
         snap = tx.as_bin()
     except Exception:
         snap = None
-    sc = tx.SolutionChecker(tx)
+    if st.get("checker") == "reuse":
+        # one checker object kept for the transaction while the transaction is edited between the calls
+        ent = W.checkers.get(id(tx))
+        if ent is None or ent[0] is not tx:
+            ent = W.checkers[id(tx)] = (tx, tx.SolutionChecker(tx))
+        else:
+            ctx.probe("checker_object_reused")
+        sc = ent[1]
+    else:
+        sc = tx.SolutionChecker(tx)
     value = cp.u[idx]["value"] if idx < len(cp.u) and cp.u[idx] is not None else None
     for ht in hts:
         if idx >= len(cp.m["outs"]) and (ht & 0x1F) == 3:
